@@ -24,6 +24,7 @@ package jrpc2
 //@ func (*NumHash).update props=C08
 //@   requires len(h) == 0 || base(h) != base(nh.Hash)
 //@   ensures [keep] n <= old(nh.Num) ==> nh.Num == old(nh.Num) && nh.Hash == old(nh.Hash) && nh.nreads == old(nh.nreads)
+//@   ensures [keep-bytes] n <= old(nh.Num) ==> (forall k int :: 0 <= k && k < len(nh.Hash) ==> nh.Hash[k] == old(nh.Hash[k]))
 //@   ensures [newer] n > old(nh.Num) ==> nh.Num == n && nh.nreads == 0 && len(nh.Hash) == len(h) && (forall k int :: 0 <= k && k < len(h) ==> nh.Hash[k] == old(h[k]))
 //@   ensures [frame] nh.maxreads == old(nh.maxreads) && nh.err == old(nh.err)
 
